@@ -168,7 +168,7 @@ def registry_is_a_function():
     return out
 
 
-@table("registry-dispatch", prop="C10")
+@table("registry-dispatch", prop="C10", also=("C02",))
 def registry_dispatch():
     """the real DiameterAvpLoader.get_avp_class dispatches every registered (vendor, code) to its
     class and every unregistered neighbour key to KeyError (executed natively, finite)"""
@@ -204,6 +204,26 @@ def registry_dispatch():
             except KeyError:
                 pass
     out.append(("vendor-id-zero-is-not-the-vendorless-table", not zero, "%d vendor-less classes reachable with Vendor-ID 0" % len(zero)))
+    # the registry follows the class hierarchy: a class defined AFTER the first lookup is dispatched to
+    # (runs in a forked worker process, so the extra class never leaks into another task)
+    import bromelia.types as _TY
+    used = {c.code for c in B.DiameterAVP.__subclasses__() if c.vendor_id is None}
+    newcode = next(bytes([0, 0, 0xfe, i]) for i in range(256) if bytes([0, 0, 0xfe, i]) not in used)
+    B.loader.get_avp_class(B.DiameterAVP(code=1))       # force at least one lookup first
+
+    class LateRegisteredProbeAVP(B.DiameterAVP, _TY.OctetStringType):
+        code = newcode
+        vendor_id = None
+
+        def __init__(self, data):
+            B.DiameterAVP.__init__(self, LateRegisteredProbeAVP.code)
+            _TY.OctetStringType.__init__(self, data=data)
+    try:
+        got = B.loader.get_avp_class(B.DiameterAVP(code=newcode))
+        late_ok = got is LateRegisteredProbeAVP
+    except KeyError:
+        late_ok = False
+    out.append(("class-defined-after-first-lookup-is-dispatched", late_ok, "late class not found"))
     return out
 
 
